@@ -217,6 +217,7 @@ def run_api_singular(seed):
         q = m.create_quantity
         d = 'dimensionless'
         names = []
+        excluded = []
         for j in range(rng.randint(1, 3)):
             a = m.add_variable('a%d' % j, d)
             slope = rng.choice([0.16, -0.04, 0.1, -1.0])
@@ -239,7 +240,7 @@ def run_api_singular(seed):
                 return [U / (EXP(U) - q(1, d)), U / (q(1, d) - EXP(U)), (EXP(U) - q(1, d)) / U, (q(1, d) - EXP(U)) / U][form]
             form = rng.randrange(4)
             ghk = pattern(U, form)
-            shape = rng.randrange(6)
+            shape = rng.randrange(8)
             if shape == 0:
                 rhs = q(rng.choice([2, 0.5, 3]), d) * ghk
             elif shape == 1:
@@ -248,6 +249,18 @@ def run_api_singular(seed):
                 rhs = sp.Pow(q(2, d) + ghk, -1)
             elif shape == 3:
                 rhs = q(1.5, d) + ghk
+            elif shape == 6:
+                # product of two terms with DIFFERENT singular points (nested repair)
+                offs2 = offs + rng.choice([15.0, -7.5, 40.0])
+                slope2 = rng.choice([0.26, -0.08, 0.5])
+                rhs = ghk * pattern(q(slope2, per_mV) * (V - q(offs2, mV)), rng.randrange(4)) * q(rng.choice([1, 0.3]), d)
+            elif shape == 7:
+                # the singular point depends on a parameter that is excluded from the analysis (it stays symbolic)
+                E = m.add_variable('E%d' % j, mV)
+                m.add_equation(sp.Eq(E, q(offs, mV)))
+                excluded.append(E)
+                Ue = q(slope, per_mV) * (V - E) if rng.random() < 0.5 else q(slope, per_mV) * V - q(slope, per_mV) * E
+                rhs = q(rng.choice([3, 0.5]), d) * pattern(Ue, form)
             else:
                 # two terms with the SAME singular point and different slopes (their repair windows are merged)
                 slope2 = rng.choice([s2 for s2 in (0.26, -0.08, 0.5, -2.0) if s2 != slope])
@@ -256,14 +269,14 @@ def run_api_singular(seed):
             m.add_equation(sp.Eq(a, rhs))
             names.append(a)
         m.add_equation(sp.Eq(sp.Derivative(V, t), sum(names[1:], names[0]) * q(1, mV_per_ms)))
-        models.append((m, V))
-    for k, (m, V) in enumerate(models):
+        models.append((m, V, excluded))
+    for k, (m, V, excluded) in enumerate(models):
         try:
-            m.remove_fixable_singularities(V)
+            m.remove_fixable_singularities(V, exclude=set(excluded)) if excluded else m.remove_fixable_singularities(V)
         except Exception as e:
             bad.append(('remove_fixable_singularities raises %r on an API-built model' % (e,), {'seed': seed}))
             continue
-        for i, (m2, _) in enumerate(models[:k + 1]):
+        for i, (m2, _, _) in enumerate(models[:k + 1]):
             bad += scan(m2, 'API-built model %d after singularity removal in model %d (same process)' % (i, k))
     return bad
 
